@@ -265,6 +265,13 @@ static int process_operand(
 
     if (operand->type == OPTYPE_ABSOLUTE) { reg = 2; }
 
+    // As=01 on R3 is the constant generator's #1 and has no index word.
+    if (operand->type == OPTYPE_INDEXED && is_src == 1 && reg == 3)
+    {
+      print_error_illegal_operands(asm_context, instr);
+      return -1;
+    }
+
     if (value < low || value > high)
     {
       print_error_range(asm_context, num_type, low, high);
